@@ -115,17 +115,21 @@ def gen_file(rng):
     defaults = []
     if rng.random() < 0.8:
         for _ in range(rng.choice((1, 1, 1, 2, 3))):
-            defaults.append((round(rng.uniform(1, 4), 2), round(rng.uniform(4, 7), 2)))
+            defaults.append((round(rng.uniform(1, 4), 2), round(rng.choice((rng.uniform(4, 7), rng.uniform(10, 15))), 2)))
     npairs = rng.randint(0, 14)
     for _ in range(npairs):
         a, b = rng.choice(names), rng.choice(names)
         if defaults and rng.random() < 0.25:
             v = rng.choice(defaults + [(0.0, 0.0)])
         else:
-            v = (round(rng.uniform(1.5, 3.5), 2), round(rng.uniform(3.5, 6.0), 2))
-        plines.append("sidechain_cutoffs %s %s %.2f %.2f" % (a, b, v[0], v[1]))
+            # outer cut-offs of ten and more Angstrom as well (long-range pairs), so that the two numbers of a
+            # pair differ in their number of digits
+            v = (round(rng.uniform(1.5, 9.9), 2), round(rng.choice((rng.uniform(3.5, 6.0), rng.uniform(10.0, 14.0), rng.uniform(9.0, 11.0))), 2))
+        fmt = rng.choice(("%.2f %.2f", "%.2f %.2f", "%g %g", "%.1f %.1f", "%05.2f %.2f", "%.3f %.3f"))
+        plines.append("sidechain_cutoffs %s %s " % (a, b) + fmt % (v[0], v[1]))
     for d in defaults:
-        plines.insert(rng.randrange(0, len(plines) + 1), "sidechain_cutoffs default %.2f %.2f" % d)
+        fmt = rng.choice(("%.2f %.2f", "%g %g", "%.1f %.1f", "%05.2f %.2f"))
+        plines.insert(rng.randrange(0, len(plines) + 1), "sidechain_cutoffs default " + fmt % d)
     # scalars
     scal = {}
     slines = []
